@@ -95,6 +95,11 @@ def run_crosshair(mod, fn, timeout, twin):
         if not m:
             # e.g. "NotDeterministic: ..." - CrossHair could not complete the path; nothing to replay
             out['status'] = 'inconclusive'
+        elif ' with crosshair.patch_to_return(' in out['call']:
+            # the path depends on a value CrossHair invented for an un-doubled nondeterministic source
+            # (random, time): it cannot be replayed as an ordinary call, so it decides nothing
+            out['status'] = 'inconclusive'
+            out['message'] = 'path depends on nondeterminism the harness does not control: ' + out['call'][:300]
     else:
         out['status'] = 'harness_error'
     return out
@@ -109,6 +114,10 @@ def eval_call(mod, expr):
 
 def run_replay(mod, fn, expr):
     """True counterexample iff the harness function returns falsy or raises Exception."""
+    try:
+        compile(expr, '<counterexample call>', 'eval')
+    except SyntaxError as e:
+        return {'status': 'not_reproduced', 'how': 'the counterexample call cannot be parsed: %s' % e}
     try:
         r = eval_call(mod, expr)
     except Exception as e:      # noqa
